@@ -837,6 +837,7 @@ func (ds *Dataset) updateDataset(newItemCount int64, entities []*Entity) error {
 
 func (ds *Dataset) GetChangesWatermark() (uint64, error) {
 	var waterMark uint64
+	hasChanges := false
 
 	err := ds.store.database.View(func(btxn *badger.Txn) error {
 		//txn := InstrumentedTxn(btxn, ds.store)
@@ -854,13 +855,25 @@ func (ds *Dataset) GetChangesWatermark() (uint64, error) {
 		defer changesIterator.Close()
 
 		changesIterator.Rewind()
+		// the newest change of this dataset, if it has any: an empty change log must not be
+		// answered with whatever key happens to precede it
 		item := changesIterator.Item()
+		if item == nil {
+			return nil
+		}
 		k := item.Key()
+		if !bytes.HasPrefix(k, searchBuffer[:6]) {
+			return nil
+		}
+		hasChanges = true
 
 		waterMark = binary.BigEndian.Uint64(k[6:14])
 
 		return nil
 	})
+	if !hasChanges {
+		return 0, err
+	}
 
 	// need to add one to point to next change in searches.
 	return waterMark + 1, err
